@@ -368,7 +368,7 @@ pub fn run(tier: Tier, seed: u64) -> i32 {
     run.shards = 3;
     run.shrink_iters = 200;
     if !run.failed() {
-        run.random("binary", tier.pick(400, 12_000), 900, |b| case(b, true));
+        run.random("binary", tier.pick(400, 8_000), 900, |b| case(b, true));
     }
     run.shards = nshards();
     run.shrink_iters = 3000;
